@@ -27,7 +27,8 @@ type childSpec struct {
 	NCtr   int        `json:"nctr"`
 	Crash  *crashSpec `json:"crash,omitempty"`
 	Upto   uint32     `json:"upto"`
-	Path   string     `json:"path"` // submit (ExecuteBlock+SubmitBlock) | add (AddBlock)
+	Path   string     `json:"path"`             // submit (ExecuteBlock+SubmitBlock) | add (AddBlock)
+	Reopen bool       `json:"reopen,omitempty"` // after the clean close: open once more, project, close
 }
 
 type childEvent struct {
@@ -126,4 +127,18 @@ func childMain(arg string) {
 		ev.Err = cerr.Error()
 	}
 	vio.Emit(ev)
+	if sp.Reopen {
+		var lg2 *ledgerkit.Ledger
+		if p := vio.Safe(func() { lg2, err = ledgerkit.Open(sp.Dir, accts, false) }); p != "" {
+			vio.Emit(childEvent{Ev: "reopen", OK: false, Err: p})
+			return
+		}
+		if err != nil {
+			vio.Emit(childEvent{Ev: "reopen", OK: false, Err: err.Error()})
+			return
+		}
+		pr := project(lg2, sp.NCtr)
+		vio.Emit(childEvent{Ev: "reopen", OK: true, Proj: &pr})
+		lg2.L.Close()
+	}
 }
